@@ -41,8 +41,10 @@ BOUND = {
     "hydrogens; 1 deviation: every clash probe, every single omitted atom / "
     "truncated side chain, every water probe at 2.8 A on 14 directions, "
     "partner poses for one seed-chosen partner residue (all directions x 24 "
-    "rotations)",
-    "thorough": "quick + water probes at 3.4 A, partner poses for all 15 "
+    "rotations); every 3-residue window of 1AJJ, 1BX8, cterm_hid (real "
+    "geometry)",
+    "thorough": "quick + every 3-residue window of all seven bundled "
+    "protein structures (1433 windows) + water probes at 3.4 A, partner poses for all 15 "
     "partner residues, 2 deviations (water+water, omitted atom+water), "
     "option sets x clash probes",
 }
@@ -312,6 +314,12 @@ def enumerate_cases(tier, seed):
     cases += s3.clash_cases("AMBER")
     cases += s3.omit_cases("AMBER")
     cases += s3.water_cases("AMBER", dists=(2.8,))
+    wfiles = (["1AJJ.pdb", "1BX8.pdb", "cterm_hid.pdb"] if tier == "quick"
+              else None)
+    cases += s3.window_cases("AMBER", wfiles)
+    if tier == "thorough":
+        cases += s3.window_cases("PARSE", ["1AJJ.pdb", "1BX8.pdb",
+                                           "cterm_hid.pdb"], opt="noopt")
     if tier == "quick":
         P = s3.PARTNERS[seed % len(s3.PARTNERS)]
         flip_hosts = ["ASN", "GLN", "HIS", "SER", "ASP", "TYR"]
